@@ -1884,6 +1884,11 @@ where
                 }
             }
             Message::Subscribe(subscribe) => {
+                // Nb. The gossip store panics if the time range is inverted.
+                if subscribe.since > subscribe.until {
+                    debug!(target: "service", "Rejecting subscription from {remote}: invalid time range");
+                    return Err(session::Error::Misbehavior);
+                }
                 // Filter announcements by interest.
                 match self
                     .db
